@@ -44,6 +44,15 @@ pub fn run(ctx: &Ctx) -> Outcome {
             0 => (0., rng.int(-2, 4) as f32),
             1 => (rng.int(-6, -1) as f32, rng.int(-6, 6) as f32),
             2 => (rng.int(1, 6) as f32, rng.int(-6, -1) as f32),
+            // far beyond the surface in one direction or both (within the working range of +-32767 px)
+            3 if rng.chance(0.15) => {
+                let far = |rng: &mut crate::prng::Rng| *rng.pick(&[4000i64, 8190, 8191, 8192, 8193, 9000, 16384, 20000, 32000]) as f32;
+                match rng.below(3) {
+                    0 => (rng.int(1, w as i64 + 4) as f32, far(&mut rng)),
+                    1 => (far(&mut rng), rng.int(1, h as i64 + 4) as f32),
+                    _ => (far(&mut rng), far(&mut rng)),
+                }
+            }
             _ => (rng.int(1, w as i64 + 4) as f32, rng.int(1, h as i64 + 4) as f32),
         };
         let src = random_source(&mut rng, w, h, 3);
